@@ -313,6 +313,8 @@ struct Source {
     recs: Option<Vec<Rec>>,
     /// (line index, class, record) of the corrupted line, if any
     corrupted: Option<(usize, String, Rec)>,
+    /// for a source with one corrupted line: the records of all the OTHER lines, in order
+    others: Option<Vec<Rec>>,
     csv: bool,
     kind: String,
 }
@@ -348,7 +350,7 @@ fn gen_sources(tier: &str) -> Vec<Source> {
         for r in &recs {
             lines.push(fmt_line(&mut rng, r, csv));
         }
-        out.push(Source { lines, recs: Some(recs), corrupted: None, csv, kind: "well-formed".to_string() });
+        out.push(Source { lines, recs: Some(recs), corrupted: None, others: None, csv, kind: "well-formed".to_string() });
     }
     // every single-line corruption by class of small base sources
     let nbase = if tier == "thorough" { 6 } else { 2 };
@@ -370,7 +372,8 @@ fn gen_sources(tier: &str) -> Vec<Source> {
             for class in CLASSES {
                 let mut lines = base.clone();
                 lines[li + off] = corrupt_line(class, r, csv);
-                out.push(Source { lines, recs: None, corrupted: Some((li + off, class.to_string(), r.clone())), csv, kind: class.to_string() });
+                let others: Vec<Rec> = recs.iter().enumerate().filter(|(k, _)| *k != li).map(|(_, x)| x.clone()).collect();
+                out.push(Source { lines, recs: None, corrupted: Some((li + off, class.to_string(), r.clone())), others: Some(others), csv, kind: class.to_string() });
             }
         }
         // two corrupted lines at once, first and last
@@ -378,7 +381,7 @@ fn gen_sources(tier: &str) -> Vec<Source> {
         lines[off] = corrupt_line("unknown-symbol", &recs[0], csv);
         let last = lines.len() - 1;
         lines[last] = corrupt_line("number-overflow", &recs[4], csv);
-        out.push(Source { lines, recs: None, corrupted: None, csv, kind: "two-errors".to_string() });
+        out.push(Source { lines, recs: None, corrupted: None, others: None, csv, kind: "two-errors".to_string() });
     }
     out
 }
@@ -495,6 +498,14 @@ fn run(tier: &str, cases: &str, impl_out: &str, oracle_out: &str) -> i32 {
                     }
                     if cfg.skip && (first.exit != 0 || !first.out_exists) {
                         fail("skip-invalid-no-output", format!("class {}: exit {} output file {}", class, first.exit, first.out_exists));
+                    }
+                    // with --skip-invalid the well-formed records around the skipped line are compiled as written
+                    if let (true, 0, Some(others), Some(got)) = (cfg.skip, first.exit, &src.others, &first.dump) {
+                        let want = expected_dump(others, cfg);
+                        if first.dump_exit == 0 && *got != want {
+                            let diff = want.iter().find(|l| !got.contains(l)).cloned().or_else(|| got.iter().find(|l| !want.contains(l)).cloned()).unwrap_or_default();
+                            fail("skipped-line-changes-other-records", format!("class {} at line {}: {} lines dumped, {} expected; first differing record: {}", class, li + 1, got.len(), want.len(), diff));
+                        }
                     }
                 }
             }
